@@ -42,8 +42,8 @@ RULE = ('exhaustive: all sequences of length <= DEPTH (quick 4, thorough 5) over
         'plus random walks of length <= 14; every node = one reaction compared with the allowed set of the reference machine; '
         'non-trivial = node where the allowed set excluded at least one reaction class the library could have produced (always true) and '
         'the stream was not idle; distinct = the symbol sequence')
-MINIMA = {'nodes_judged': 100000, 'recv_accept_judged': 10000, 'recv_stream_error_judged': 3000, 'recv_conn_error_judged': 10000,
-          'recv_ignore_judged': 2000, 'local_ok_judged': 10000, 'local_refused_judged': 10000, 'random_walk_nodes_judged': 5000}
+MINIMA = {'nodes_judged': 100000, 'recv_accept_judged': 6000, 'recv_stream_error_judged': 3000, 'recv_conn_error_judged': 10000,
+          'recv_ignore_judged': 2000, 'local_ok_judged': 5000, 'local_refused_judged': 10000, 'random_walk_nodes_judged': 5000}
 EXHAUSTIVE = {'quick': True, 'thorough': True}
 
 PROTOCOL_ERROR, FLOW_CONTROL_ERROR, STREAM_CLOSED, REFUSED_STREAM, CANCEL = 1, 3, 5, 7, 8
@@ -85,7 +85,7 @@ def n_exhaustive_cases():
 
 
 def n_random(tier):
-    return 3000 if tier == 'quick' else 200000
+    return 12000 if tier == 'quick' else 300000
 
 
 def n_cases(tier):
